@@ -47,15 +47,17 @@ func Now() Time {
 	}
 	return rt.Unix(0, vsched.NowNS()).UTC()
 }
-func Since(t Time) Duration                                 { return Now().Sub(t) }
-func Until(t Time) Duration                                 { return t.Sub(Now()) }
-func Unix(s, ns int64) Time                                 { return rt.Unix(s, ns) }
-func UnixMilli(ms int64) Time                               { return rt.UnixMilli(ms) }
-func UnixMicro(us int64) Time                               { return rt.UnixMicro(us) }
-func Date(y int, m Month, d, h, mi, s, ns int, l *Location) Time { return rt.Date(y, m, d, h, mi, s, ns, l) }
-func Parse(layout, v string) (Time, error)                  { return rt.Parse(layout, v) }
-func ParseDuration(s string) (Duration, error)              { return rt.ParseDuration(s) }
-func FixedZone(name string, off int) *Location              { return rt.FixedZone(name, off) }
+func Since(t Time) Duration   { return Now().Sub(t) }
+func Until(t Time) Duration   { return t.Sub(Now()) }
+func Unix(s, ns int64) Time   { return rt.Unix(s, ns) }
+func UnixMilli(ms int64) Time { return rt.UnixMilli(ms) }
+func UnixMicro(us int64) Time { return rt.UnixMicro(us) }
+func Date(y int, m Month, d, h, mi, s, ns int, l *Location) Time {
+	return rt.Date(y, m, d, h, mi, s, ns, l)
+}
+func Parse(layout, v string) (Time, error)     { return rt.Parse(layout, v) }
+func ParseDuration(s string) (Duration, error) { return rt.ParseDuration(s) }
+func FixedZone(name string, off int) *Location { return rt.FixedZone(name, off) }
 
 func Sleep(d Duration) {
 	if vsched.X == nil {
@@ -67,10 +69,10 @@ func Sleep(d Duration) {
 
 // Timer mirrors time.Timer on the virtual clock.
 type Timer struct {
-	C  <-chan Time
-	c  chan Time
-	f  func()
-	tm *vsched.Timer
+	C   <-chan Time
+	c   chan Time
+	f   func()
+	tm  *vsched.Timer
 	rtm *rt.Timer // outside executions
 }
 
